@@ -137,11 +137,15 @@ def storage_image(storage):
     return img
 
 
-def probe_driver(storage, x, subset, use_storage, direct, n, seen_classes):
+def probe_driver(storage, x, subset, use_storage, direct, n, seen_classes, persistent=None):
     def driver(run):
         from ixai.imputer import TreeImputer
-        model = LogModel()
-        imp = TreeImputer(model, storage_object=storage, direct_predict_numeric=direct, use_storage=use_storage)
+        if persistent is not None:      # ONE imputer object used over the whole stream (before and after drifts)
+            imp, model = persistent
+            model.inputs = []
+        else:
+            model = LogModel()
+            imp = TreeImputer(model, storage_object=storage, direct_predict_numeric=direct, use_storage=use_storage)
         xin = dict(x)
         sub = list(subset)
         preds = imp.impute(feature_subset=sub, x_i=xin, n_samples=n)
@@ -206,8 +210,19 @@ def run_word(cfg, word, seed, do_probe, stats):
     classes = set()
     t = 0
     n_leaves_max = 0
+    from ixai.imputer import TreeImputer
+    pm = LogModel()
+    persistent = (TreeImputer(pm, storage_object=storage, direct_predict_numeric=False, use_storage=True), pm)
     for bi, (concept, m) in enumerate(word):
         for x in gen_block(concept, m, seed, t):
+            if t and t % 4 == 0:
+                # the long-lived imputer is used before every 4th update (default answers of its draws)
+                sub = [NAMES[(t // 4) % 3], NAMES[(t // 4 + 1) % 3]] if (t // 4) % 2 else [NAMES[(t // 4) % 3]]
+                run_, res_, v_ = choice.execute(probe_driver(storage, dict(x), sub, True, False, 1 + (t // 4) % 2, classes,
+                                                             persistent), (), None, False)
+                stats['probe_execs'] += 1
+                if v_ is not None:
+                    raise v_
             storage.update(x)
             arrivals.append(x)
             classes.add(x['c1'])
